@@ -352,7 +352,7 @@ pub fn panic_text(e: &Box<dyn std::any::Any + Send>) -> String {
 use std::cell::RefCell;
 thread_local! {
     static LAST_PANIC: RefCell<Option<(String, String)>> = RefCell::new(None);
-    static QUIET: RefCell<bool> = RefCell::new(false);
+    static QUIET: RefCell<u32> = RefCell::new(0);
 }
 
 /// Install a process-wide hook that records (location, message) per thread and
@@ -373,7 +373,7 @@ pub fn install_panic_hook() {
         };
         LAST_PANIC.with(|p| *p.borrow_mut() = Some((loc, msg)));
         let quiet = QUIET.with(|q| *q.borrow());
-        if !quiet {
+        if quiet == 0 {
             prev(info);
         }
     }));
@@ -405,10 +405,10 @@ impl Caught {
 
 /// Run `f`, turning a panic into `Err(Caught)`.
 pub fn guarded<T>(f: impl FnOnce() -> T) -> Result<T, Caught> {
-    QUIET.with(|q| *q.borrow_mut() = true);
+    QUIET.with(|q| *q.borrow_mut() += 1); // nestable
     LAST_PANIC.with(|p| *p.borrow_mut() = None);
     let r = std::panic::catch_unwind(std::panic::AssertUnwindSafe(f));
-    QUIET.with(|q| *q.borrow_mut() = false);
+    QUIET.with(|q| *q.borrow_mut() -= 1);
     match r {
         Ok(v) => Ok(v),
         Err(e) => {
